@@ -65,6 +65,9 @@ def run(ctx, rep, tier):
             rep.holds("FL", list(d_.values())[0][0], f_, "%s clears hasCellSizeUpdate_ and hasNetUpdate_" % f_.short)
         elif len(list(d_.values())[0]) < 2:
             rep.holds("FL", list(d_.values())[0][0], f_, "%s clears %s once (the update it has just handled)" % (f_.short, list(d_)[0]))
+        elif any(w_.endswith("::" + ("hasNetUpdate_" if list(d_)[0] == "hasCellSizeUpdate_" else "hasCellSizeUpdate_"))
+                 for w_ in eff.transitive().get(f_.key, {}).get("writes", ())):
+            rep.holds("FL", list(d_.values())[0][0], f_, "%s clears %s itself and the other flag through a callee" % (f_.short, list(d_)[0]))
         else:
             have = list(d_)[0]
             other = "hasNetUpdate_" if have == "hasCellSizeUpdate_" else "hasCellSizeUpdate_"
